@@ -101,6 +101,27 @@ def main():
             ratios[cls.__name__] = max(ratios.get(cls.__name__, 0.0), r)
             if r > K:
                 fail("global-error-exceeds-K*tol", method=cls.__name__, tol=tol, problem="bernoulli", ratio=r)
+    # fast decay with an initial step far too large for it (dt >= the span, |lambda| * span = 50 .. 200): the first attempts of the first
+    # step are rejected several times; the step that is finally recorded must meet the tolerance like any other (defect F31: the error
+    # scale and the controller memory of the rejected attempts were carried into the judgement of the retry)
+    for cls in [c for c in adaptive if not np.any(np.triu(np.asarray(c.tableau_intermediate)[:, 1:]))]:          # explicit embedded pairs
+        for lam in (-50.0, -200.0):
+            for sgn in (1.0, -1.0):
+                for dt0 in (1.0, 10.0):
+                    for tol in ((1e-6,) if req["tier"] == "quick" else (1e-4, 1e-6, 1e-9)):
+                        f = lambda t, y, lam=lam, sgn=sgn: sgn * lam * y
+                        a = de.OdeSystem(f, y0=np.array([1.0]), t=(0.0, sgn * 1.0), dt=dt0, rtol=tol, atol=tol)
+                        a.method = cls
+                        cases += 1
+                        try:
+                            a.integrate()
+                        except Exception as e:
+                            continue          # raising instead of recording an inaccurate state is what the property asks for
+                        t, y = np.asarray(a.t), np.asarray(a.y)[:, 0]
+                        ex = np.exp(lam * np.abs(t))
+                        r = float(np.max(np.abs(y - ex) / (tol + tol * np.abs(ex))))
+                        if r > 5 * K:
+                            fail("global-error-exceeds-K*tol-after-an-oversized-initial-step", method=cls.__name__, tol=tol, lam=lam, direction=sgn, dt=dt0, ratio=r, first_step=float(abs(t[1] - t[0])))
     # Richardson wrappers (explicit, implicit and symplectic bases), both directions: the run returns (a watchdog turns a hang into a
     # failure) and meets its tolerance on the harmonic oscillator
     import signal
